@@ -185,11 +185,13 @@ impl<const BUFFER_CAPACITY: usize> RibbonController<BUFFER_CAPACITY> {
                 }
             }
         } else {
+            // any out of range sample ends the current run of samples, also when the run was too short to count as a press
+            self.num_samples_received = 0;
+            self.num_samples_written = 0;
+
             // if this flag is true right now then they must have just lifted their finger
             if self.finger_is_pressing {
                 self.finger_just_released = true;
-                self.num_samples_received = 0;
-                self.num_samples_written = 0;
                 self.finger_is_pressing = false;
             }
         }
